@@ -467,3 +467,30 @@ def bag_size(bag_shape):
     if k not in _bag_size:
         _bag_size[k] = z3.Function('bag_size_' + _san(k), bag_shape.sort(), IntS)
     return _bag_size[k]
+
+
+# --------------------------------------------------------------------------- list operations as functions
+_list_fns = {}
+
+
+def list_fn(name, list_shape, extra_sorts):
+    """lslice/lcat/ldel/lsplice on a list sort, as function symbols (their defining facts are
+    assumed for each application the engine creates)."""
+    k = (name, list_shape.key())
+    if k not in _list_fns:
+        _list_fns[k] = z3.Function('%s_%s' % (name, _san(list_shape.key())), *([list_shape.sort()] + list(extra_sorts)
+                                                                                + [list_shape.sort()]))
+    return _list_fns[k]
+
+
+class TSeq(Shape):
+    """ghost sequence (native z3 Seq): output streams, logs."""
+
+    def __init__(self, elem):
+        self.elem = elem
+
+    def key(self):
+        return 'seq[%s]' % self.elem.key()
+
+    def sort(self):
+        return z3.SeqSort(self.elem.sort())
